@@ -29,3 +29,27 @@ pub mod wasm;
 // when using rsdd-ocaml
 #[cfg(feature = "ffi")]
 mod ffi;
+
+/// Hooks for the external verification harness; compiled only with the
+/// `verif_hooks` feature and never used by the library itself.
+#[cfg(feature = "verif_hooks")]
+pub mod verif {
+    pub use crate::backing_store::{BackedRobinhoodTable, UniqueTable};
+    use std::cell::Cell;
+
+    thread_local! {
+        /// initial capacity of every unique table created on this thread (0 = library default)
+        pub static TABLE_CAPACITY: Cell<usize> = const { Cell::new(0) };
+        /// initial capacity (as a power of two, +1; 0 = library default) of every lossy ITE cache
+        pub static LRU_ITE_CAPACITY: Cell<usize> = const { Cell::new(0) };
+    }
+
+    pub fn set_table_capacity(cap: usize) {
+        TABLE_CAPACITY.with(|c| c.set(cap));
+    }
+
+    /// `Some(p)` makes every new `LruIteTable` start with `2^p` slots; `None` restores the default
+    pub fn set_lru_ite_capacity(pow: Option<usize>) {
+        LRU_ITE_CAPACITY.with(|c| c.set(pow.map_or(0, |p| p + 1)));
+    }
+}
